@@ -19,6 +19,8 @@ class TagEntry:
         self.data_arg_name = None
         self.dict_is_data = True
         self.parse_scalars = True
+        self.make_event = None
+        self.kwargs_val = {}
 
     def __repr__(self):
         return '<Tag %s -> %s>' % (self.tag, self.fi.qualname if self.fi else None)
@@ -50,33 +52,55 @@ def constructors(repo):
 
 
 def _analyse(repo, e):
-    makes = [c for c in calls_in(e.fi.node, nested=False) if unparse(c.func) in ('_make_node', 'make_node')]
-    if len(makes) != 1:
+    """the _make_node call of a constructor, read from the traces of the constructor function (locals substituted,
+    private helpers inlined): literal kwargs are folded, everything else is kept as ('<expr>', canonical text)"""
+    from . import tr
+    try:
+        paths = tr.paths_of(repo, e.fi, no_inline={'_make_node', 'make_node', '_decode_metadata'}, follow_exceptions=False)
+    except AnalysisError:
+        return
+    makes = []
+    for p in paths:
+        for ev in p.events:
+            if ev.kind == 'call' and ev.callee in ('_make_node', 'make_node'):
+                makes.append(ev)
+    sites = {id(m.node) for m in makes}
+    if len(sites) != 1:
+        return
+    variants = set()
+    for mk in makes:
+        variants.add((mk.kw['kwargs'].text if 'kwargs' in mk.kw else None,) + tuple((k, mk.kw[k].text) for k in sorted(mk.kw) if k != 'kwargs'))
+    if len(variants) != 1:
         return
     mk = makes[0]
-    e.make = mk
+    e.make = mk.node
+    e.make_event = mk
     e.kwargs = {}
-    for k in mk.keywords:
-        if k.arg == 'kwargs':
-            v = k.value
-            if isinstance(v, ast.Dict):
-                for kk, vv in zip(v.keys, v.values):
+    e.kwargs_val = {}
+    for k, v in mk.kw.items():
+        if k == 'kwargs':
+            d = v.ast
+            if isinstance(d, ast.Dict):
+                for kk, vv in zip(d.keys, d.values):
                     if kk is None:
                         e.kwargs_dynamic.append(unparse(vv))
                         continue
                     ok, val = fold_const(repo, vv)
                     key = kk.value if isinstance(kk, ast.Constant) else unparse(kk)
                     e.kwargs[key] = val if ok else ('<expr>', unparse(vv))
-            else:
-                e.kwargs_dynamic.append(unparse(v))
-        elif k.arg == 'node_type':
-            e.node_type = unparse(k.value)
-        elif k.arg == 'data_arg_name':
-            e.data_arg_name = k.value.value if isinstance(k.value, ast.Constant) else unparse(k.value)
-        elif k.arg == 'dict_is_data':
-            e.dict_is_data = k.value.value if isinstance(k.value, ast.Constant) else None
-        elif k.arg == 'parse_scalars':
-            e.parse_scalars = k.value.value if isinstance(k.value, ast.Constant) else None
+                    e.kwargs_val[key] = vv
+            elif not (isinstance(d, ast.Constant) and d.value is None):
+                e.kwargs_dynamic.append(v.text)
+        elif k == 'node_type':
+            e.node_type = v.text
+        elif k == 'data_arg_name':
+            e.data_arg_name = v.const if isinstance(v.ast, ast.Constant) else v.text
+        elif k == 'dict_is_data':
+            e.dict_is_data = v.const if isinstance(v.ast, ast.Constant) else None
+        elif k == 'parse_scalars':
+            e.parse_scalars = v.const if isinstance(v.ast, ast.Constant) else None
+    if len(mk.args) > 2:
+        raise AnalysisError('constructor of %s passes more than (loader, node) positionally to _make_node' % e.tag)
 
 
 FLAG_TAGS = {
